@@ -239,7 +239,8 @@ fn generate(thorough: bool) -> (String, Vec<Probe>, usize) {
     g.probe("Outer::WithNamed { x: 1 }", "struct variant", "variant-snake-case", "with_named", true);
     g.probe("Outer::Table", "Table beside flattened variants", "table-from-type-name", "outer", true);
     // (4) enum_def
-    let fields = ["a", "ab_c", "a1", "x_y_z9", "camel"];
+    // canonical snake-case names and names a snake-case conversion would change (the identifier is the field as written)
+    let fields = ["a", "ab_c", "a1", "x_y_z9", "camel", "_id", "shard__key", "type_", "userId"];
     let struct_names = ["Ab", "ABCd", "a1B", "Ab_c"];
     let mut ei = 0;
     for sn in struct_names {
@@ -247,7 +248,7 @@ fn generate(thorough: bool) -> (String, Vec<Probe>, usize) {
             let st = format!("E{ei}x{oi}{sn}");
             ei += 1;
             let attr = if opts.is_empty() { "#[enum_def]".to_string() } else { format!("#[enum_def({opts})]") };
-            writeln!(g.src, "{attr}\nstruct {st} {{ {} }}", fields.iter().map(|f| format!("{f}: u8")).collect::<Vec<_>>().join(", ")).unwrap();
+            writeln!(g.src, "#[allow(non_snake_case, dead_code)]\n{attr}\nstruct {st} {{ {} }}", fields.iter().map(|f| format!("{f}: u8")).collect::<Vec<_>>().join(", ")).unwrap();
             g.n_types += 1;
             let en = format!("{prefix}{st}{suffix}");
             let tname = table.map(String::from).unwrap_or_else(|| ref_snake(&st));
